@@ -1681,6 +1681,13 @@ def gen_tree(rng, depth):
                 t[ln] = ("l", target)
     if rng.random() < 0.1 and "fifo.go" not in t:
         t["fifo.go"] = "o"
+    if rng.random() < 0.2:
+        # entries that are not directories but carry a name that directories are skipped for (an editor's lock
+        # file is a dangling symlink called .#name; vendor can be a link): their siblings are still wanted
+        for n, v in ((".#a.go", ("l", "user@host.1234")), ("vendor", ("l", "src")), ("testdata", ("l", "nowhere")),
+                     ("_cache", "o"), (".socket", "o"), ("_link.go", ("l", "a.go"))):
+            if rng.random() < 0.35 and n not in t:
+                t[n] = v
     return t
 
 def materialize(root, t):
